@@ -91,6 +91,10 @@ package header
 //@ define hdrSatMask(s) = bits(s, 97, 64)
 //@ define hdrSigMask(s) = bits(s, 161, 32)
 //@ define hdrX(s) = cnthi(hdrSatMask(s), 64, 64) * cnthi(hdrSigMask(s), 32, 32)
+// Well-formed MSM4 / MSM7 frames (what the message decoders must accept), as functions of the frame s alone.
+//@ define hdrNC(s) = cnthi(bits(s, 193, hdrX(s)), hdrX(s), hdrX(s))
+//@ define WFMSM4(s) = isMSM4(bits(s, 24, 12)) && hdrX(s) <= 64 && 8*len(s) >= 217 + hdrX(s) + 18*cnthi(hdrSatMask(s), 64, 64) + 48*hdrNC(s) && (bits(s, 78, 1) == 0 || hdrNC(s) >= 1)
+//@ define WFMSM7(s) = isMSM7(bits(s, 24, 12)) && hdrX(s) <= 64 && 8*len(s) >= 217 + hdrX(s) + 36*cnthi(hdrSatMask(s), 64, 64) + 80*hdrNC(s) && (bits(s, 78, 1) == 0 || hdrNC(s) >= 1)
 // What a decoded header is, as a function of the frame s alone (used by the message decoders).
 //@ define HdrFields(h, s) = h.MessageType == bits(s, 24, 12) && h.StationID == bits(s, 36, 12) && h.Timestamp == bits(s, 48, 30) && h.MultipleMessage == (bits(s, 78, 1) == 1) && h.IssueOfDataStation == bits(s, 79, 3) && h.SessionTransmissionTime == bits(s, 82, 7) && h.ClockSteeringIndicator == bits(s, 89, 2) && h.ExternalClockSteeringIndicator == bits(s, 91, 2) && h.GNSSDivergenceFreeSmoothingIndicator == (bits(s, 93, 1) == 1) && h.GNSSSmoothingInterval == bits(s, 94, 3) && h.SatelliteMask == hdrSatMask(s) && h.SignalMask == hdrSigMask(s) && h.CellMask == bits(s, 193, len(h.Satellites)*len(h.Signals))
 //@ define HdrLists(h) = len(h.Satellites) == cnthi(h.SatelliteMask, 64, 64) && len(h.Signals) == cnthi(h.SignalMask, 32, 32) && forall(j, 0, len(h.Satellites), 1 <= h.Satellites[j] && h.Satellites[j] <= 64 && bitof(h.SatelliteMask, 64 - h.Satellites[j]) == 1) && forall(j, 0, len(h.Satellites) - 1, h.Satellites[j] < h.Satellites[j+1]) && forall(j, 0, len(h.Signals), 1 <= h.Signals[j] && h.Signals[j] <= 32 && bitof(h.SignalMask, 32 - h.Signals[j]) == 1) && forall(j, 0, len(h.Signals) - 1, h.Signals[j] < h.Signals[j+1])
